@@ -73,8 +73,9 @@ PROPS["C03"] = {
     "quick": [H("ZZ_C03_Get", reach=["read-done", "hit"], bounds="all 64-bit setAt/ttl/readAt/cachedNow < 2^62"),
               H("ZZ_C03_Range", reach=["range-done"]),
               H("ZZ_C03_Reset", reach=["read-done"]),
-              H("ZZ_C03_Loading", reach=["read-done"])],
-    "thorough": [H("ZZ_C03_Get", reach=["read-done", "hit"]), H("ZZ_C03_Range", reach=["range-done"]), H("ZZ_C03_Reset", reach=["read-done"]), H("ZZ_C03_Loading", reach=["read-done"]),
+              H("ZZ_C03_Loading", reach=["read-done"]),
+              H("ZZ_C14_HybridLoadingExpiry", reach=["read"], bounds="hybrid loading cache: a value promoted from the secondary tier keeps its deadline")],
+    "thorough": [H("ZZ_C14_HybridLoadingExpiry", reach=["read"]), H("ZZ_C03_Get", reach=["read-done", "hit"]), H("ZZ_C03_Range", reach=["range-done"]), H("ZZ_C03_Reset", reach=["read-done"]), H("ZZ_C03_Loading", reach=["read-done"]),
                  H("ZZ_C03_Get", reach=["read-done", "hit"], solver="cvc5", bounds="cross-check with cvc5"), H("ZZ_C03_Reset", reach=["read-done"], solver="cvc5", bounds="cross-check with cvc5"),
                  H("ZZ_C03_Loading", reach=["read-done"], solver="cvc5", bounds="cross-check with cvc5")],
 }
@@ -92,13 +93,14 @@ PROPS["C04"] = {
              [H("ZZ_C04_Resched", reach=["rescheduled"]), H("ZZ_C04_Deschedule", reach=["descheduled"]),
               H("ZZ_C04_Slot3", params={"P0": 5}, reach=["advanced"]), H("ZZ_C04_Jump", reach=["jumped"], bounds="jump >= 2^51 ns, wheel time = 1234567 ticks + symbolic offset"),
               H("ZZ_C04_Store", reach=["two-ticks"], bounds="through the Store: TTL <= 2^29 ns and two tick instants symbolic"),
-              H("ZZ_C04_LateUpdate", reach=["three-ticks"], bounds="TTL update processed 2^31 ns late")],
+              H("ZZ_C04_LateUpdate", reach=["three-ticks"], bounds="TTL update processed 2^31 ns late"),
+              H("ZZ_C04_StoreUpdate", reach=["ticked"], bounds="TTL changes through the Store: none/2^28/2^29 -> none/2^28/2^29")],
     "thorough": [H("ZZ_C04_Base", reach=["placed"]),
                  H("ZZ_C04_Step", reach=["advanced", "removed", "kept"], bounds="G=2^31, all positions symbolic"),
                  H("ZZ_C04_Resched", reach=["rescheduled"]), H("ZZ_C04_Deschedule", reach=["descheduled"]),
                  H("ZZ_C04_Slot3", params={"P0": 5}, reach=["advanced"]), H("ZZ_C04_Slot3", params={"P0": 63, "P1": 7}, reach=["advanced"]),
                  H("ZZ_C04_Jump", reach=["jumped"]), H("ZZ_C04_Jump", params={"K": 4194303}, reach=["jumped"]),
-                 H("ZZ_C04_Store", reach=["two-ticks"]), H("ZZ_C04_LateUpdate", reach=["three-ticks"]),
+                 H("ZZ_C04_Store", reach=["two-ticks"]), H("ZZ_C04_LateUpdate", reach=["three-ticks"]), H("ZZ_C04_StoreUpdate", reach=["ticked"]),
                  H("ZZ_C04_Base", reach=["placed"], solver="cvc5", bounds="cross-check with cvc5"),
                  H("ZZ_C04_Step", params={"P0": 63, "P1": 7}, reach=["advanced", "removed", "kept"], solver="cvc5", bounds="cross-check with cvc5")],
 }
@@ -349,8 +351,10 @@ PROPS["C14"] = {
     "quick": [H("ZZ_C14_Seq", params={"N": 4}, reach=["sequence-done", "hit", "promoted-from-secondary"], bounds="N=4 calls, memory capacity 1"),
               H("ZZ_C14_Seq", params={"N": 4, "FULL": 1}, reach=["sequence-done", "hit"], bounds="N=4 calls, hand-off queue may be full at any demotion"),
               H("ZZ_C14_Seq", params={"N": 3, "PROB": 2}, reach=["sequence-done", "hit"], solver="cvc5", bounds="N=3 calls, admission probability symbolic in [0,1]"),
-              H("ZZ_C14_StalePromoted", reach=["evicted-again"]), H("ZZ_C14_DeleteRace", params={"PRE": 1}, reach=["settled"]), H("ZZ_C14_Expired", reach=["read"])],
-    "thorough": [H("ZZ_C14_Seq", params={"N": 5, "FULL": 1}, reach=["sequence-done", "hit"]), H("ZZ_C14_Seq", params={"N": 4, "PROB": 2}, reach=["sequence-done", "hit"], solver="cvc5"),
+              H("ZZ_C14_StalePromoted", reach=["evicted-again"]), H("ZZ_C14_DeleteRace", params={"PRE": 1}, reach=["settled"]), H("ZZ_C14_Expired", reach=["read"]),
+              H("ZZ_C14_DeleteVsGet", params={"PRE": 1}, reach=["settled"], bounds="hybrid Delete of a demoted key racing a hybrid Get, preemptions 1"),
+              H("ZZ_C14_HybridLoadingExpiry", reach=["read"], bounds="hybrid loading cache: promoted entry, read time symbolic")],
+    "thorough": [H("ZZ_C14_DeleteVsGet", params={"PRE": 2}, reach=["settled"]), H("ZZ_C14_HybridLoadingExpiry", reach=["read"]), H("ZZ_C14_Seq", params={"N": 5, "FULL": 1}, reach=["sequence-done", "hit"]), H("ZZ_C14_Seq", params={"N": 4, "PROB": 2}, reach=["sequence-done", "hit"], solver="cvc5"),
                  H("ZZ_C14_Seq", params={"N": 4, "PROB": 0}, reach=["sequence-done", "hit"]), H("ZZ_C14_Seq", params={"N": 4, "WORKERS": 2}, reach=["sequence-done", "hit"]),
                  H("ZZ_C14_Seq", params={"N": 5}, reach=["sequence-done", "hit", "promoted-from-secondary"], bounds="N=5 calls"),
                  H("ZZ_C14_StalePromoted", reach=["evicted-again"]), H("ZZ_C14_DeleteRace", params={"PRE": 2}, reach=["settled"]), H("ZZ_C14_Expired", reach=["read"])],
